@@ -3,3 +3,4 @@
 
 pub use crate::storage::{ChainStorage, StorageConfig, TraceStorage};
 pub use crate::sampler_stats::StatsDims;
+pub use crate::storage::HashMapResult;
